@@ -14,20 +14,20 @@ RULE = ('Cases: FASTA record sets built with `ska build -k K [--single-strand]` 
         'Forced kinds for every odd k in 5..63 and both strand modes: records of length k-1/k/k+1, N exactly k+1/k/k+2 '
         'from the record end, one k-mer repeated with 2..4 middles in both orientations, self-complementary arms, a record '
         'and its reverse complement, input with no window (must be refused); plus random records (mixed case, N runs, '
-        'wrapping) and multi-sample builds.  A case is non-trivial when the model has at least one window; distinct = '
+        'wrapping), multi-sample builds, builds of 20..160 samples with --threads 2..16, and several builds with different k inside one process (library route, harness).  A case is non-trivial when the model has at least one window; distinct = '
         'distinct (k, strand mode, record set).')
 ASSUMPTIONS = ['the reference model in vlib/model.py states the specification correctly',
                'file names s<i>.fa give sample names s<i>',
                'a 15% slice is also run on the overflow-checked build; its panics are diagnostics, the release build decides']
 REQUIRED = {'quick': ['kind:len', 'kind:nend', 'kind:repeat', 'kind:pal', 'kind:rcrec', 'kind:empty', 'kind:random',
-                      'kind:multi', 'palindromic_rows', 'refusals_correct', 'width64', 'width128']}
+                      'kind:multi', 'kind:manythreads', 'kind:inprocess', 'inprocess_builds_compared', 'palindromic_rows', 'refusals_correct', 'width64', 'width128']}
 REQUIRED['thorough'] = REQUIRED['quick']
 
 KINDS = ['len', 'nend', 'repeat', 'pal', 'rcrec', 'empty']
 
 
 def builds(tier):
-    return ['rel', 'chk']
+    return ['rel', 'chk', 'harness']
 
 
 def plan(tier, seed, rng, scale):
@@ -42,6 +42,11 @@ def plan(tier, seed, rng, scale):
         descs.append({'kind': kind, 'k': rng.choice(G.ALL_K), 'rc': rng.random() < 0.6, 'seed': rng.getrandbits(32)})
     for i, d in enumerate(descs):
         d['chk'] = (i % 7 == 0)
+    for i in range(int((10 if tier == 'quick' else 100) * scale)):
+        descs.append({'kind': 'manythreads', 'k': rng.choice([9, 15, 31, 33]), 'rc': True, 'seed': rng.getrandbits(32),
+                      'threads': rng.choice([2, 4, 8, 16]), 'chk': False})
+    for i in range(int((30 if tier == 'quick' else 300) * scale)):
+        descs.append({'kind': 'inprocess', 'k': 0, 'rc': True, 'seed': rng.getrandbits(32), 'chk': False})
     return descs
 
 
@@ -124,6 +129,15 @@ def gen_records(desc):
                 L = rng.choice([k - 1, k, k + 1, k + 2, 2 * k, rng.randint(k, 6 * k)])
             recs.append(G.noisy_seq(rng, L, pn=rng.choice([0, 0, 0.01, 0.05])))
         return [recs]
+    if kind == 'manythreads':
+        base = G.rseq(rng, 3 * k)
+        samples = []
+        for _ in range(rng.choice([20, 40, 70, 72, 80, 160])):
+            t = list(base)
+            for _j in range(rng.randint(0, 3)):
+                t[rng.randrange(len(t))] = rng.choice('ACGTN')
+            samples.append([''.join(t)])
+        return samples
     if kind == 'multi':
         base = [G.rseq(rng, rng.randint(k, 5 * k)) for _ in range(rng.randint(1, 3))]
         samples = []
@@ -166,8 +180,50 @@ def judge(res, sig_prefix, desc, samples, p_build, hdr, table, k, rcmode, expect
                     {'samples': samples, 'k': k, 'rc': rcmode, 'got': table, 'expected': expected, 'hdr': hdr})
 
 
+def run_inprocess(desc, ctx, res):
+    """Several builds with different k (and strand modes) inside one process, each compared with the model."""
+    rng = random.Random(desc['seed'])
+    jobs = []
+    lines = []
+    for n in range(rng.randint(3, 7)):
+        k = rng.choice(G.ALL_K)
+        rcmode = rng.random() < 0.6
+        recs = [G.noisy_seq(rng, rng.randint(k, 5 * k), pn=rng.choice([0, 0.02])) for _ in range(rng.randint(1, 3))]
+        if not M.build(recs, k, rcmode):
+            continue
+        fn = G.write_fa(ctx.path('ip%d.fa' % n), recs)
+        jobs.append((k, rcmode, recs))
+        lines.append('%d %d %s' % (k, rcmode, fn))
+    if len(jobs) < 2:
+        return
+    ctx.write('multik.txt', '\n'.join(lines) + '\n')
+    p = ctx.sh(ctx.bins['harness'], 'multik', ctx.path('multik.txt'))
+    parts = p.stdout.split('== ')[1:]
+    res.count('kind:inprocess')
+    for n, (k, rcmode, recs) in enumerate(jobs):
+        res.evals += 1
+        expected = M.table_of([recs], k, rcmode)
+        ok = False
+        if n < len(parts):
+            try:
+                hdr, table = M.parse_nk(parts[n].split('\n', 1)[1])
+                ok = table == expected and hdr.get('k') == str(k)
+            except (ValueError, IndexError):
+                ok = False
+        if not ok:
+            res.violate('C01:inprocess', 'build number %d in one process (k=%d rc=%s after k=%s) differs from the model%s'
+                        % (n + 1, k, rcmode, [j[0] for j in jobs[:n]], '' if p.returncode == 0 else ': ' + p.stderr.strip()[-150:]),
+                        {'jobs': [(j[0], j[1], j[2]) for j in jobs]})
+            return
+        res.count('inprocess_builds_compared')
+    res.nontrivial.append(fingerprint(['inprocess', desc['seed']]))
+
+
 def run_case(desc, ctx):
     res = Result()
+    if desc['kind'] == 'inprocess':
+        run_inprocess(desc, ctx, res)
+        return res
     k, rcmode = desc['k'], desc['rc']
     samples = gen_records(desc)
     rng = random.Random(desc['seed'] ^ 0x5a5a)
@@ -185,7 +241,7 @@ def run_case(desc, ctx):
     for variant in (['rel', 'chk'] if desc.get('chk') else ['rel']):
         binary = ctx.bins[variant]
         out = ctx.path(('o_' if desc['seed'] % 3 else 'E.coli.k12_') + variant)        # a third of the prefixes contain dots
-        p = G.ska_build(ctx, out, files, k, rcmode, binary=binary)
+        p = G.ska_build(ctx, out, files, k, rcmode, binary=binary, extra=['--threads', desc['threads']] if desc.get('threads') else ())
         if variant == 'chk':
             res.count('chk_runs')
             if p.returncode != 0 and 'overflow' in p.stderr:
